@@ -29,6 +29,12 @@ type vfC07Sock struct {
 	limit   int
 	yield   bool
 	failErr error
+	// once: only the write that crosses the limit fails; afterwards the socket takes everything
+	// (a transient condition such as a write deadline) - whatever follows a torn frame shows up
+	once   bool
+	failed bool
+	// slow: the failing write blocks this long before it returns, so that other writers queue up
+	slow time.Duration
 }
 
 func (s *vfC07Sock) SetWriteDeadline(time.Time) error { return nil }
@@ -37,8 +43,12 @@ func (s *vfC07Sock) Write(p []byte) (int, error) {
 	n := 0
 	for _, b := range p {
 		s.mu.Lock()
-		if s.limit >= 0 && len(s.wire) >= s.limit {
+		if s.limit >= 0 && len(s.wire) >= s.limit && !(s.once && s.failed) {
+			s.failed = true
 			s.mu.Unlock()
+			if s.slow > 0 {
+				time.Sleep(s.slow)
+			}
 			return n, s.failErr
 		}
 		s.wire = append(s.wire, int(b))
@@ -88,6 +98,9 @@ var vfC07Fail = errors.New("vf: socket failure")
 func vfC07ErrClass(err error) string {
 	if err == nil {
 		return "none"
+	}
+	if errors.Is(err, context.Canceled) || errors.Is(err, context.DeadlineExceeded) {
+		return "ctx"
 	}
 	if errors.Is(err, vfC07Fail) {
 		return "io"
@@ -254,12 +267,23 @@ func TestVfC07Concurrent(t *testing.T) {
 			limit = rng.Intn(total + 1)
 		}
 		sock := &vfC07Sock{limit: limit, failErr: vfC07Fail, yield: true}
+		if limit >= 0 && r%4 >= 2 {
+			sock.once = true
+			sock.slow = 2 * time.Millisecond
+		}
 		quit := make(chan struct{})
 		var w contextWriter
 		if mode == "direct" {
 			w = &deadlineContextWriter{w: sock, timeout: time.Second, semaphore: make(chan struct{}, 1), quit: quit}
 		} else {
-			w = newWriteCoalescer(sock, time.Second, 100*time.Microsecond, quit)
+			w = newWriteCoalescer(sock, time.Second, time.Duration(100+rng.Intn(1500))*time.Microsecond, quit)
+		}
+		cancelAt := make([]time.Duration, nw)
+		for i := range cancelAt {
+			cancelAt[i] = -1
+			if rng.Intn(4) == 0 {
+				cancelAt[i] = time.Duration(rng.Intn(1200)) * time.Microsecond
+			}
 		}
 		res := make([]vfC07Res, nw)
 		var wg sync.WaitGroup
@@ -270,7 +294,15 @@ func TestVfC07Concurrent(t *testing.T) {
 				if i%3 == 2 {
 					time.Sleep(time.Duration(50+i*20) * time.Microsecond)
 				}
-				n, err := w.writeContext(context.Background(), vfC07Frame(i+1, lens[i]))
+				ctx := context.Background()
+				if cancelAt[i] >= 0 {
+					var cancel context.CancelFunc
+					ctx, cancel = context.WithCancel(ctx)
+					t := time.AfterFunc(cancelAt[i], cancel)
+					defer t.Stop()
+					defer cancel()
+				}
+				n, err := w.writeContext(ctx, vfC07Frame(i+1, lens[i]))
 				res[i] = vfC07Res{n, vfC07ErrClass(err)}
 			}(i)
 		}
